@@ -232,6 +232,9 @@ def main(argv):
             for v in ctx.violations:
                 print("VIOLATION property=%s replay=%s%s" % (pid, v["replay"], "" if v["failing_input"] else " no-failing-input-found"))
             return 1 if ctx.violations else (rc or 0)
+        import glob as _glob
+        for old in _glob.glob(os.path.join(REPLAY, "%s-*.json" % pid)):
+            os.remove(old)
         ctx.allowed_axioms = getattr(mod, "ALLOWED_AXIOMS", ())
         ph = proof.proof_half(pid, ctx.allowed_axioms)
         for pr in ph["problems"]:
